@@ -340,6 +340,7 @@ type c10Opt struct {
 	async  bool // votes are verified in a goroutine (no core.WithSyncVerification)
 	fetch  bool // missing blocks can be fetched from the peers (the orphan chain)
 	cache1 bool // signature cache of capacity 1
+	lat    bool // server.WithLatencies: the latency matrix is enabled (all replicas at one location)
 }
 
 func (o c10Opt) String() string {
@@ -356,11 +357,14 @@ func (o c10Opt) String() string {
 	if o.cache1 {
 		s += " cache-capacity-1"
 	}
+	if o.lat {
+		s += " latency-matrix"
+	}
 	return s
 }
 
 // secondary configurations are sampled more sparsely in the quick tier
-func (o c10Opt) secondary() bool { return o.simple || o.async || o.fetch || o.cache1 }
+func (o c10Opt) secondary() bool { return o.simple || o.async || o.fetch || o.cache1 || o.lat }
 
 func (o c10Opt) state() string {
 	switch {
@@ -550,7 +554,14 @@ func c10NewReplica(t *testing.T, w *c10World, opt c10Opt) *c10Replica {
 	proposer := consensus.NewProposer(r.el, r.cfg, r.bc, r.states, r.rules, cm, r.voter, cmdCache, committer)
 	synchronizer.New(r.el, log, r.cfg, r.auth, leader, synchronizer.NewFixedDuration(time.Hour),
 		synchronizer.NewTimeoutRuler(r.cfg, r.auth), proposer, r.voter, r.states, snd)
-	r.impl = &serviceImpl{srv: &Server{blockchain: r.bc, eventLoop: r.el, logger: log, config: r.cfg, id: c10Rut}}
+	srv := &Server{blockchain: r.bc, eventLoop: r.el, logger: log, config: r.cfg, id: c10Rut}
+	if opt.lat {
+		// what server.WithLatencies(id, locations) sets; one location for all, so that known peers are not delayed
+		o := &serverOptions{}
+		WithLatencies(c10Rut, []string{"Oslo", "Oslo", "Oslo", "Oslo"})(o)
+		srv.id, srv.lm = o.id, o.latencyMatrix
+	}
+	r.impl = &serviceImpl{srv: srv}
 	r.baseG = runtime.NumGoroutine()
 	if opt.mid {
 		r.midRun(t)
@@ -899,13 +910,22 @@ func (r *c10Replica) deliver(m *c10Msg, pb proto.Message) (o c10Obs) {
 
 func (r *c10Replica) cfgTerm(g string) string {
 	sch := map[string]string{crypto.NameECDSA: "Ecdsa", crypto.NameEDDSA: "Eddsa", crypto.NameBLS12: "Bls"}[r.w.scheme]
-	return fmt.Sprintf("(CF %s %s %s %s %d %s)", sch, c10B(r.opt.cache), c10B(r.opt.agg), c10B(r.opt.kauri), r.cfg.QuorumSize(), g)
+	return fmt.Sprintf("(CF %s %s %s %s %s %d %s)", sch, c10B(r.opt.cache), c10B(r.opt.agg), c10B(r.opt.kauri), c10B(r.opt.lat), r.cfg.QuorumSize(), g)
 }
 
 // termOf computes, before delivery, the model's view of the message: the wmsg term, the env term and
 // whether nothing in it verifies.
 func (r *c10Replica) termOf(m *c10Msg, pb proto.Message) (msg, env string, bad, unvalidated bool) {
-	ev := [8]bool{} // view_ok, vote_rule, qc_match, hq_signed, sig_same, leader_ok, vote_reach, contrib_reach
+	ev := [9]bool{} // view_ok, vote_rule, qc_match, hq_signed, sig_same, leader_ok, vote_reach, contrib_reach, peer_in_matrix
+	// the id the service handler hands to addNetworkDelay
+	delayID := uint64(0)
+	if m.ctxID >= 0 {
+		delayID = uint64(m.ctxID)
+	}
+	if p, ok := pb.(*hotstuffpb.Proposal); ok && r.opt.kauri {
+		delayID = uint64(p.ProposerID())
+	}
+	ev[8] = delayID >= 1 && delayID <= c10N
 	switch m.kind {
 	case c10Propose:
 		p := pb.(*hotstuffpb.Proposal)
@@ -1024,16 +1044,16 @@ func (r *c10Replica) termOf(m *c10Msg, pb proto.Message) (msg, env string, bad, 
 		s, sb := r.sigTerm(k.GetSignature(), r.verifyAgainst(bb))
 		msg, bad = fmt.Sprintf("(MContribution (KC %s))", s), sb
 	}
-	env = fmt.Sprintf("(EV %s %s %s %s %s %s %s %s)", c10B(ev[0]), c10B(ev[1]), c10B(ev[2]), c10B(ev[3]), c10B(ev[4]), c10B(ev[5]), c10B(ev[6]), c10B(ev[7]))
+	env = fmt.Sprintf("(EV %s %s %s %s %s %s %s %s %s)", c10B(ev[0]), c10B(ev[1]), c10B(ev[2]), c10B(ev[3]), c10B(ev[4]), c10B(ev[5]), c10B(ev[6]), c10B(ev[7]), c10B(ev[8]))
 	return
 }
 
 // ---------------------------------------------------------------- guard probing
 
-type c10Guards struct{ srvBlock, block, pcert, tc, aggAny, aggSync, cache, bitfield, equals bool }
+type c10Guards struct{ srvBlock, block, pcert, tc, aggAny, aggSync, cache, bitfield, equals, latency bool }
 
 func (g c10Guards) term() string {
-	return fmt.Sprintf("(G %s %s %s %s %s %s %s %s %s)", c10B(g.srvBlock), c10B(g.block), c10B(g.pcert), c10B(g.tc), c10B(g.aggAny), c10B(g.aggSync), c10B(g.cache), c10B(g.bitfield), c10B(g.equals))
+	return fmt.Sprintf("(G %s %s %s %s %s %s %s %s %s %s)", c10B(g.srvBlock), c10B(g.block), c10B(g.pcert), c10B(g.tc), c10B(g.aggAny), c10B(g.aggSync), c10B(g.cache), c10B(g.bitfield), c10B(g.equals), c10B(g.latency))
 }
 
 func c10Returns(f func()) (ok bool) {
@@ -1046,7 +1066,7 @@ func c10Returns(f func()) (ok bool) {
 	return true
 }
 
-// c10Probe finds out which of the nine guards the tree under test has, with one minimal wire
+// c10Probe finds out which of the ten guards the tree under test has, with one minimal wire
 // message each, delivered through the service handlers (so it does not matter where on the path a
 // guard sits); BlockFromProto is an exported function and is probed directly.
 func c10Probe(t *testing.T, w, wbls *c10World) c10Guards {
@@ -1074,6 +1094,8 @@ func c10Probe(t *testing.T, w, wbls *c10World) c10Guards {
 	v1 := hotstuff.View(1)
 	g.bitfield = survivesIn(wbls, c10Opt{}, &c10Msg{kind: c10Timeout, ctxID: 0,
 		pb: &hotstuffpb.TimeoutMsg{View: 1, ViewSig: hotstuffpb.QuorumSignatureToProto(wbls.sign(4, v1.ToBytes()))}})
+	// a peer with an id outside the latency matrix sends an empty new-view to a replica created with server.WithLatencies
+	g.latency = survives(c10Opt{lat: true}, &c10Msg{kind: c10NewView, pb: &hotstuffpb.SyncInfo{}, ctxID: 99})
 	// QuorumCert.Equals is an exported method: one certificate with, one without a signature
 	g.equals = c10Returns(func() {
 		signed := hotstuff.NewQuorumCert(w.sign(3, []byte("x")), 0, gh)
@@ -2151,7 +2173,7 @@ func (x *c10Run) batches(w *c10World, opts []c10Opt) {
 // ---------------------------------------------------------------- identifiers at the boundaries
 
 // 8, 9, 16, 17: the first ids outside a one- and a two-byte participant bitfield
-var c10IDs = []int{0, 2, 5, 8, 9, 16, 17, 255, 256, 65535, 65536, 1 << 24, 1 << 31, 1<<32 - 1}
+var c10IDs = []int{0, 2, 5, 8, 9, 16, 17, 99, 255, 256, 65535, 65536, 1 << 24, 1 << 31, 1<<32 - 1}
 
 // ids: peer ids that are 0, the receiver's own, not in the configuration, and at the boundaries of uint8/16/32 — as the
 // id attached by the service handler, as signer ids inside signatures, as keys of the AggQC map, as proposer and
@@ -2514,7 +2536,8 @@ func TestVerifC10(t *testing.T) {
 		}
 		// secondary configurations: SimpleHotStuff rules, fetchable blocks, cache of capacity 1, asynchronous verification
 		sec := []c10Opt{{simple: true}, {simple: true, mid: true}, {simple: true, cache: true, mid: true},
-			{fetch: true}, {fetch: true, mid: true}, {fetch: true, agg: true, mid: true}, {cache: true, cache1: true, mid: true}}
+			{fetch: true}, {fetch: true, mid: true}, {fetch: true, agg: true, mid: true}, {cache: true, cache1: true, mid: true},
+			{lat: true}, {lat: true, mid: true}, {lat: true, kauri: true, mid: true}}
 		asyncOpts := []c10Opt{{async: true, mid: true}, {async: true, cache: true, mid: true}, {async: true, agg: true, mid: true}}
 		tSec := time.Now()
 		x.sparse = true
@@ -2524,6 +2547,9 @@ func TestVerifC10(t *testing.T) {
 			x.enumTimeouts(w, opt)
 			x.enumProposals(w, opt)
 			x.enumRequestBlocks(w, opt)
+			if opt.kauri {
+				x.enumContributions(w, opt)
+			}
 		}
 		for _, opt := range asyncOpts {
 			x.enumVotes(w, opt)
@@ -2543,7 +2569,8 @@ func TestVerifC10(t *testing.T) {
 		tBa := time.Now()
 		x.batches(w, []c10Opt{{}, {cache: true}, {simple: true}, {async: true}, {fetch: true}})
 		tI := time.Now()
-		x.ids(w, []c10Opt{{mid: true}, {cache: true, mid: true}, {agg: true, mid: true}, {kauri: true, mid: true}, {async: true, mid: true}})
+		x.ids(w, []c10Opt{{mid: true}, {cache: true, mid: true}, {agg: true, mid: true}, {kauri: true, mid: true}, {async: true, mid: true},
+			{lat: true}, {lat: true, mid: true}, {lat: true, agg: true, mid: true}, {lat: true, kauri: true}, {lat: true, kauri: true, mid: true}})
 		v.Note(fmt.Sprintf("%s timing: secondary configs %.1fs, quorum scripts %.1fs, bursts %.1fs, batches %.1fs, ids %.1fs", s,
 			tQ.Sub(tSec).Seconds(), tB.Sub(tQ).Seconds(), tBa.Sub(tB).Seconds(), tI.Sub(tBa).Seconds(), time.Since(tI).Seconds()))
 		v.Note(fmt.Sprintf("%s: enumeration done after %.1fs, %d cases", s, time.Since(t0).Seconds(), x.nCases))
